@@ -234,10 +234,15 @@ STOCHASTIC_SHIPPED = [
 ]
 
 
+# seeds: 0 is valid and a truthiness trap (a fifth of the draws), otherwise small or large values
+SEEDS = st.tuples(st.integers(0, 4), st.integers(0, 1000), st.integers(0, 2 ** 32 - 2)).map(
+    lambda t: 0 if t[0] == 0 else (t[1] if t[0] < 4 else t[2]))
+
+
 @st.composite
 def shipped_case(draw, paths):
     p = draw(st.sampled_from(paths))
-    s = draw(st.integers(0, 1000))
+    s = draw(SEEDS)
     big = "uc7" in p
     slow = "nmap_" in p  # a /24 (x ports) scan every step: ~1-1.5 s per step
     acts = draw(st.lists(st.tuples(st.just("step"), st.integers(0, 10 ** 6)).map(list), min_size=2 if slow else 3,
@@ -259,7 +264,7 @@ def gen_case(draw):
     if c["spec"].get("bw") is not None and c["spec"]["bw"] < 1:
         c["spec"]["bw"] = None
     acts = [o for o in c["ops"] if o[0] != "reset"] or [["step", 0]]
-    s = draw(st.integers(0, 1000))
+    s = draw(SEEDS)
     c["ops"] = [["reset", s]] + acts + [["reset", s]] + acts
     return c
 
@@ -269,11 +274,23 @@ def uc7_long_case(draw, which: int = 0):
     """The threat actors need ~30 quiet steps to get through reconnaissance: blue mostly idles."""
     p = ["src/primaite/config/_package_data/uc7_config.yaml",
          "src/primaite/config/_package_data/uc7_config_tap003.yaml"][which % 2]
-    s = draw(st.integers(0, 1000))
+    s = draw(SEEDS)
     k = draw(st.integers(32, 40))
     acts = [["step", 0] for _ in range(k)]
     return {"src": "shipped", "path": p, "max_len": None, "cfg_seed": None, "no_logging": True,
             "ops": [["reset", s]] + acts + [["reset", s]] + acts[:10]}
+
+
+@st.composite
+def uc7_short_case(draw, which: int = 0):
+    """A short UC7 episode pair that also runs in the logging variant (the long one is too slow with DEBUG logs): the
+    UC7 scripted agents act from step 0, so construction-time differences between variants show at once."""
+    p = ["src/primaite/config/_package_data/uc7_config.yaml",
+         "src/primaite/config/_package_data/uc7_config_tap003.yaml"][which % 2]
+    s = draw(SEEDS)
+    acts = [["step", 0] for _ in range(draw(st.integers(6, 10)))]
+    return {"src": "shipped", "path": p, "max_len": None, "cfg_seed": draw(st.sampled_from([None, 0, 3])),
+            "ops": [["reset", s]] + acts + [["reset", s]] + acts}
 
 
 @st.composite
@@ -283,7 +300,7 @@ def folder_case(draw, rot: int = 0):
     fs = [f for f in SCHEDULE_FOLDERS if "uc7" not in f]
     fs = fs[rot % len(fs):] + fs[:rot % len(fs)]
     p = draw(st.sampled_from(fs))
-    s = draw(st.integers(0, 1000))
+    s = draw(SEEDS)
     ops = []
     for _ in range(draw(st.integers(2, 5))):  # several episodes: the schedule advances with every reset
         ops.append(["reset", s])
@@ -321,6 +338,8 @@ def worker(ctx: Ctx):
         cases += collect(folder_case(rot=ctx.idx // 2 + ctx.seed), 1 if q else 5, ctx.wseed * 10 + 2)
     if ctx.idx < 2 or not q:  # quick: worker 0 runs the TAP001 scenario, worker 1 the TAP003 one
         cases += collect(uc7_long_case(which=ctx.idx), 1 if q else 2, ctx.wseed * 10 + 3)
+    if ctx.idx in (2, 3) or not q:  # quick: workers 2 and 3 run a short UC7 pair under every variant incl. logging
+        cases += collect(uc7_short_case(which=ctx.idx), 1, ctx.wseed * 10 + 5)
     chunk = 12
     for i in range(0, len(cases), chunk):
         part = cases[i:i + chunk]
